@@ -56,6 +56,10 @@ func (checker *TimestampChecker) IsUpToDate(t *ast.Task) (bool, error) {
 			}
 			f.Close()
 		}
+		// Without the file there is no attempt on record that did not fail
+		// (a failed one removes it): the task has to run, however new its
+		// generated files are - a failed attempt may have left them behind
+		return false, nil
 	}
 
 	// A generates entry that matches no file (any more) means that the task
